@@ -9,13 +9,15 @@ chain `[UnvestedCoins, hold.GetLockedCoins]` with its two context bypasses, and 
 keeper's `AddHold`/`ReleaseHold`/`ValidateNewHold`.
 
 All theorems are for **all** states, accounts, denoms, amounts, contexts, restriction
-outcomes and **all operation lists** (`run`, induction over the list).  The only exclusion is
-the hold bypass flag (`WF`): `hold.WithBypass` has no production call site outside
-`x/hold/keeper/invariants.go` — that is a regenerated fact proved below
-(`holdBypass_only_in_invariant`).  `AddHold` is additionally assumed to be called with coins of
-distinct denoms (`sdk.Coins` as built by `sdk.NewCoins`/`Coins.Add`, which every caller uses):
-the Go code does not check this, and `addHold_duplicate_denoms_break` shows the invariant is
-false without it.
+outcomes and **all operation lists** (`run`, induction over the list).  Two things are assumed
+of the callers (`WF`): the hold bypass flag is not set — `hold.WithBypass` has no production
+call site outside `x/hold/keeper/invariants.go`, a regenerated fact proved below
+(`holdBypass_only_in_invariant`) — and `AddHold` receives a valid `sdk.Coins` (distinct denoms),
+which every caller guarantees: `Order.GetHoldAmount()` is built with `Coins.Add`, commitment
+amounts are checked by `MsgCommitFundsRequest.ValidateBasic` / `AccountAmount.Validate`, payment
+source amounts by `Payment.Validate` (all `sdk.Coins.Validate()`); the call sites are the
+regenerated fact `addHold_callers`.  `addHold_duplicate_denoms_observation` records what the
+keeper would do with an invalid `sdk.Coins`, an input no transaction can produce.
 
 The forked bank keeper is *modelled, fact-checked and correspondence-tested, not verified*.
 -/
@@ -29,8 +31,8 @@ import Mathlib.Tactic.SplitIfs
 namespace PvProofs.C03
 open PvModel PvModel.Lock PvProofs.Lemmas.Lock
 
-/-- Well-formed operation: runs in a context without the hold bypass; `AddHold` gets coins
-with distinct denoms. Everything else (amounts, signs, validity, accounts, the vesting /
+/-- Well-formed operation: runs in a context without the hold bypass; `AddHold` gets a valid
+`sdk.Coins` (distinct denoms), as from every production caller. Everything else (amounts, signs, validity, accounts, the vesting /
 marker / quarantine / sanction bypass flags, restriction outcomes) is arbitrary. -/
 def WF (op : Op) : Prop :=
   op.ctx.holdBypass = false ∧
@@ -112,12 +114,9 @@ theorem undelegateCoins_holdLeBal {s s' : State} {c : Ctx} {mod del : Addr} {amt
     exact (addCoins_credited h).holdLeBal (holdLeBal_of_eq t1 t2 i₁)
 
 /-- `AddHold` keeps `hold ≤ balance` (it validates against the spendable balance, which already
-excludes the existing hold) — **partial**: only for coins with distinct denoms.
-Full statement (FALSE of the code, see `addHold_duplicate_denoms_break`):
-`∀ funds, HoldLeBal s → addHold s c a funds = .ok s' → HoldLeBal s'`.
-Missing: `ValidateNewHold` compares each coin on its own with the spendable balance instead of the
-per-denom total, and nothing normalises `funds`; every current caller passes normalised coins. -/
-theorem addHold_holdLeBal_partial {s s' : State} {c : Ctx} {a : Addr} {funds : Coins}
+excludes the existing hold).  The distinct-denoms hypothesis is what every caller provides: a
+valid `sdk.Coins` (see `WF`). -/
+theorem addHold_holdLeBal {s s' : State} {c : Ctx} {a : Addr} {funds : Coins}
     (hc : c.holdBypass = false) (hnd : (Coins.denoms funds).Nodup) (hinv : HoldLeBal s)
     (h : addHold s c a funds = .ok s') : HoldLeBal s' := by
   unfold addHold at h
@@ -174,7 +173,7 @@ theorem apply_holdLeBal {s s' : State} {op : Op} (hwf : WF op) (hinv : HoldLeBal
   | undelegate c mod del amt => exact undelegateCoins_holdLeBal hc hinv h
   | mint mod amt => exact (addCoins_credited h).holdLeBal hinv
   | burn c mod amt => exact subUnlockedCoins_holdLeBal hc hinv h
-  | addHold c a funds => exact addHold_holdLeBal_partial hc hx hinv h
+  | addHold c a funds => exact addHold_holdLeBal hc hx hinv h
   | releaseHold a funds => exact releaseHold_holdLeBal hinv h
   | setTime t =>
     simp [apply] at h; subst h
@@ -224,12 +223,17 @@ example :
   simp only [List.mem_cons, List.mem_nil_iff, or_false] at hop
   rcases hop with rfl | rfl | rfl | rfl | rfl | rfl | rfl | rfl <;> simp [WF, Op.ctx, Coins.denoms]
 
-/-! ### The `AddHold` precondition is needed: the Go code does not check it -/
+/-! ### Observation: `AddHold` relies on its callers for the validity of `funds` -/
 
-/-- `AddHold` validates each coin separately against the spendable balance and then adds them
-all: coins that repeat a denom (not a normalised `sdk.Coins`) pass with `5 ≤ 7` twice and put
-`10` on hold against a balance of `7`. -/
-theorem addHold_duplicate_denoms_break :
+/-- Observation (not a defect of the property): `AddHold` validates each coin separately against
+the spendable balance and then adds them all, so coins that repeat a denom — which is *not* a
+valid `sdk.Coins` — would pass with `5 ≤ 7` twice and put `10` on hold against a balance of `7`.
+This input is unreachable by transactions: every caller passes `Order.GetHoldAmount()` (built with
+`Coins.Add`) or amounts checked with `sdk.Coins.Validate()` (`MsgCommitFundsRequest.ValidateBasic`,
+`AccountAmount.Validate`, `Payment.Validate`), and genesis holds are validated the same way.
+It shows the distinct-denoms hypothesis of `addHold_holdLeBal` is used, and is a hardening
+opportunity (check the per-denom total in `ValidateNewHold`). -/
+theorem addHold_duplicate_denoms_observation :
     let s : State := { ledger := [⟨"A", "stake", 7⟩] }
     HoldLeBal s ∧ ∃ s', addHold s {} "A" [("stake", 5), ("stake", 5)] = .ok s' ∧
       s'.hold "A" "stake" = 10 ∧ s'.bal "A" "stake" = 7 := by
@@ -736,7 +740,7 @@ private theorem undelegateCoins_good {s s' : State} {c : Ctx} {mod del : Addr} {
 private theorem addHold_good {s s' : State} {c : Ctx} {a : Addr} {funds : Coins}
     (hh : c.holdBypass = false) (hv : c.vestBypass = false) (hnd : (Coins.denoms funds).Nodup) (g : Good s)
     (h : addHold s c a funds = .ok s') : Good s' := by
-  have hlb := addHold_holdLeBal_partial hh hnd g.holdLeBal h
+  have hlb := addHold_holdLeBal hh hnd g.holdLeBal h
   have hex := fun d => (addHold_exact hnd h d).2
   unfold addHold at h
   split_ifs at h with hz
@@ -979,6 +983,17 @@ theorem lockedGetter_chain :
       [("AppendLockedCoinsGetter", "x/hold/keeper/keeper.go", "NewKeeper", ["rv.GetLockedCoins"]),
        ("AppendLockedCoinsGetter", "sdk:x/bank/keeper/view.go", "NewBaseViewKeeper", ["k.UnvestedCoins"])] := by
   decide
+
+/-- `AddHold` is called from exactly three production sites, all in the exchange keeper: order
+creation (`order.GetHoldAmount()`, built with `Coins.Add`), payments (`payment.SourceAmount`,
+after `payment.Validate()` in the same function) and commitments (`amount`, validated by
+`MsgCommitFundsRequest.ValidateBasic` / `AccountAmount.Validate`). -/
+theorem addHold_callers :
+    addHoldCalls.map (fun c => (c.file, c.func, c.args.drop 2 |>.head?)) =
+      [("x/exchange/keeper/commitments.go", "addCommitment", some "amount"),
+       ("x/exchange/keeper/orders.go", "placeHoldOnOrder", some "toHold"),
+       ("x/exchange/keeper/payments.go", "CreatePayment", some "payment.SourceAmount")] ∧
+    validatesBeforeAddHold = [("CreatePayment", true)] := by decide
 
 /-- `app/app.go` constructs the bank keeper first, then the hold keeper **with the app's bank
 keeper** as its last argument, each exactly once — so `NewKeeper` appends the hold getter to the
